@@ -130,6 +130,10 @@ func (p *Proxy) SetAttr(name string, value Object) error {
 			field = reflect.ValueOf(p.obj).FieldByName(name)
 		}
 
+		if field.Kind() == reflect.Struct && value == Nil {
+			// The field holds the struct itself: there is no nil to store
+			return errz.TypeErrorf("type error: cannot set field %s of type %s to nil", name, field.Type())
+		}
 		if field.CanSet() {
 			setField(field, result)
 			return nil
